@@ -323,6 +323,16 @@ func propEviction(c *Case) {
 				c.Class("population-changed-shortly-before-cycle")
 			}
 
+			// restoring entries that are all there already (the cache's own dump) changes nothing
+			if c.Weighted("restore-own-dump", 4, 1) == 1 {
+				var buf bytes.Buffer
+
+				nd, derr := be.Dump(&buf)
+				nr, rerr := be.Restore(&buf)
+				c.Assert(derr == nil && rerr == nil && nd == nr, "restore-error", "Dump/Restore of the cache into itself = (%d, %v) / (%d, %v)", nd, derr, nr, rerr)
+				c.Class("own-dump-restored-before-cycle")
+			}
+
 			evBefore := tr.get("ev", cache.MetricEvict)
 			callsBefore := neededCalls
 
